@@ -272,3 +272,4 @@ def check(facts, rep, tier, cfg):
     import whomay
     whomay.check(facts, rep, "C10.S7", "C10")
     whomay.check_new_statics(facts, rep, "C10.S7", "C10")
+    whomay.check_new_trait_methods(facts, rep, "C10.S7", "C10")
